@@ -102,7 +102,14 @@ def composite(offence, relation, water=False):
     """Part A (within the limits) followed by part B (exceeding one limit), B being further chains of the same model or a second model.
     Returns (table, number of atoms of part A)."""
     A = make_table(2, 1, "small", 1, False, 1, 2)
-    if offence == "chain":
+    if offence == "many":
+        # part A: 4 long-named chains (needs renaming, a fit exists); part B: 66 further long-named chains - the parent has 70 chains, more than PDB allows
+        ids = chain_ids(70, 2)
+        A = make_table(4, 2, "small", 1, False, 1, 1)
+        B = make_table(66, 2, "small", len(A) + 1, False, 1, 1)
+        for k, b in enumerate(B):
+            b["chain"] = ids[4 + k // 2]
+    elif offence == "chain":
         B = make_table(2, 2, "small", len(A) + 1, False, 1, 2)
     elif offence == "resseq":
         B = make_table(2, 1, "12345", len(A) + 1, False, 1, 2)
@@ -125,14 +132,17 @@ def composite(offence, relation, water=False):
 def slice_cases(tier):
     """Row subsets of a parsed table (what splitter/unifier hand to fit_to_pdb): the part within the limits must be recognised as fitting and come
     back unchanged although the parent table exceeded a limit; the offending part must be renamed properly on its own."""
-    for offence in ("chain", "resseq", "serial"):
+    for offence in ("chain", "resseq", "serial", "many"):
         for relation in ("chains", "model"):
             for how in ("mask", "iloc", "groupby"):
                 for part in ("A", "B"):
+                    if offence == "many" and how == "groupby" and relation == "chains":
+                        continue  # the groupby slice picks the first two chains; 'many' is about four of seventy
                     yield dict(slice=how, offence=offence, relation=relation, part=part, fmt="mmCIF")
 
 
 def tool_cases(tier):
+    yield dict(tool="splitter", composite=["many", "model", False], fmt="mmCIF")
     for offence in ("chain", "resseq", "serial"):
         yield dict(tool="splitter", composite=[offence, "model", False], fmt="mmCIF")
         yield dict(tool="unifier", composite=[offence, "chains", True], fmt="mmCIF")
